@@ -88,6 +88,7 @@ def step (s0 : MState) (j : Json) : MState × Json :=
       let (s1, x) := setValue sched s p v
       let s2 := { s1 with faultIn := none }
       (s2, obs s2 x [("sched", .str verdict), ("hyp", hypJson s2 m p),
+                     ("scope", .bool (callScopeB sched s (.setValue p v))),
                      ("order", .arr ((findTaskids m (chainR p)).map pathToJson).toArray)])
     | _, _ => bad s "set"
   | some "setexpr" =>
@@ -98,6 +99,7 @@ def step (s0 : MState) (j : Json) : MState × Json :=
       let (s1, x) := setExpr sched s p e
       let s2 := { s1 with faultIn := none }
       (s2, obs s2 x [("sched", .str verdict), ("hyp", hypJson s2 m p),
+                     ("scope", .bool (callScopeB sched s (.setExpr p e))),
                      ("order", .arr ((findTaskids m (chainR p)).map pathToJson).toArray)])
     | _, _ => bad s "setexpr"
   | some "iop" =>
